@@ -123,6 +123,7 @@ Proof.
     destruct (Nat.eqb ls (cur s)); [|intros id r'; simpl; apply Q; reflexivity].
     destruct (write_offset _ _ _); simpl; [|exact Hl]. intros id r'; simpl; apply Q; reflexivity.
   - destruct (nth_error (labels s) l) as [[v|]|] eqn:El; try exact Hl.
+    destruct (bind_precheck l (cur s) (s_len (cur_sec s)) (pending s) (refs s)); cbn [negb]; cbv iota; [|exact Hl].
     unfold bind_rel. simpl.
     set (lbls' := upd (labels s) l (Some (cur s, s_len (cur_sec s)))).
     assert (W : walk_post lbls' (bind_sel l (cur s) (s_len (cur_sec s))) (pending s) (refs s)
@@ -288,12 +289,59 @@ Proof.
   unfold walk_done; simpl. apply IH.
 Qed.
 
+Lemma precheck_false_nonempty l sec off fxs rs : bind_precheck l sec off fxs rs = false -> fxs <> [].
+Proof. destruct fxs; [discriminate|discriminate]. Qed.
+
 Theorem bind_error_means_pending s l :
   snd (step s (OBind l)) = EInvalidDisp -> pending (fst (step s (OBind l))) <> [].
 Proof.
   simpl. destruct (nth_error (labels s) l) as [[v|]|]; simpl; try discriminate.
-  unfold bind_rel. simpl.
-  destruct (w_err _) eqn:E; [|discriminate]. intros _. apply walk_err_kept in E. exact E.
+  destruct (bind_precheck l (cur s) (s_len (cur_sec s)) (pending s) (refs s)) eqn:Ep; cbn [negb]; cbv iota.
+  - unfold bind_rel. simpl. destruct (w_err _) eqn:E; [|discriminate]. intros _. apply walk_err_kept in E. exact E.
+  - simpl. intros _. eapply precheck_false_nonempty; eauto.
+Qed.
+
+(* after a successful pre-check the walk patches every same-section fixup of the label: it cannot report *)
+Lemma walk_no_err l sec off : forall fxs rs,
+  NoDup (ids fxs) -> (forall fx, In fx fxs -> fx_ok rs fx) -> bind_precheck l sec off fxs rs = true ->
+  w_err (resolve_list (bind_sel l sec off) true fxs rs) = false.
+Proof.
+  induction fxs as [|fx t IH]; intros rs Hnd Hok Hp; [reflexivity|].
+  assert (Hnd' : NoDup (ids t)) by (inversion Hnd; assumption).
+  assert (Hnin : ~ In (fx_id fx) (ids t)) by (inversion Hnd; assumption).
+  simpl in Hp. apply andb_true_iff in Hp. destruct Hp as (Hh & Ht).
+  assert (Hok' : forall fx0, In fx0 t -> fx_ok rs fx0) by (intros; apply Hok; right; assumption).
+  simpl. destruct (bind_sel l sec off fx) as [| |lay lo] eqn:Es.
+  - unfold walk_keep; simpl. apply IH; assumption.
+  - unfold bind_sel in Es. destruct (Nat.eqb (fx_label fx) l); [destruct (Nat.eqb (fx_sec fx) sec)|]; discriminate.
+  - destruct (nth_error rs (fx_id fx)) as [r|] eqn:Er; [|unfold walk_keep; simpl; apply IH; assumption].
+    destruct (write_offset _ _ _) as [w|] eqn:Ew; [|discriminate].
+    unfold walk_done; simpl. apply IH; [exact Hnd'| |].
+    + intros fx0 H. apply fx_ok_same with rs; [|apply Hok'; exact H].
+      apply nth_error_upd_neq. intros E. apply Hnin. rewrite E. apply in_map. exact H.
+    + (* the pre-check of the remaining fixups reads other references *)
+      clear - Ht Hnin. revert Ht. unfold bind_precheck. induction t as [|fx0 t IH]; simpl; [auto|].
+      intros H. apply andb_true_iff in H. destruct H as (A & B). apply andb_true_iff. split.
+      * destruct (bind_sel l sec off fx0); auto.
+        rewrite nth_error_upd_neq by (intros E; apply Hnin; left; symmetry; exact E). exact A.
+      * apply IH; [|exact B]. intros X. apply Hnin. right. exact X.
+Qed.
+
+(* a refused bind is a no-op: the label stays unbound, every fixup stays pending, the counter is unchanged *)
+Theorem bind_refused_no_change s l : inv s ->
+  snd (step s (OBind l)) <> EOk -> fst (step s (OBind l)) = s.
+Proof.
+  intros I. simpl. destruct (nth_error (labels s) l) as [[v|]|]; simpl; try reflexivity.
+  destruct (bind_precheck l (cur s) (s_len (cur_sec s)) (pending s) (refs s)) eqn:Ep; cbn [negb]; cbv iota; [|reflexivity].
+  unfold bind_rel. simpl. rewrite (walk_no_err _ _ _ _ _ (inv_nodup _ _ _ _ _ I) (inv_fx _ _ _ _ _ I) Ep). congruence.
+Qed.
+
+(* and it is refused exactly when some same-section fixup of the label cannot be encoded *)
+Theorem bind_refused_iff s l : nth_error (labels s) l = Some None ->
+  (snd (step s (OBind l)) = EInvalidDisp /\ fst (step s (OBind l)) = s) \/
+  bind_precheck l (cur s) (s_len (cur_sec s)) (pending s) (refs s) = true.
+Proof.
+  intros El. simpl. rewrite El. destruct (bind_precheck _ _ _ _ _); cbn [negb]; cbv iota; simpl; auto.
 Qed.
 
 (* an instruction that is refused leaves the state untouched *)
@@ -417,6 +465,7 @@ Proof.
     destruct (Nat.eqb ls (cur s)); [|intros ? ? X; exact X].
     destruct (write_offset _ _ _); intros ? ? X; exact X.
   - destruct (nth_error (labels s) l) as [[v|]|] eqn:El; try (intros ? ? X; exact X).
+    destruct (bind_precheck l (cur s) (s_len (cur_sec s)) (pending s) (refs s)); cbn [negb]; cbv iota; [|intros ? ? X; exact X].
     unfold bind_rel. simpl. apply label_mono_upd. exact El.
   - destruct (nth_error (labels s) l) as [lb|]; [|intros ? ? X; exact X].
     destruct (size_ok size); simpl; [|intros ? ? X; exact X]. destruct lb; intros ? ? X; exact X.
@@ -451,6 +500,7 @@ Proof.
     destruct (Nat.eqb ls (cur s)); [|intros id r'; simpl; apply Q; reflexivity].
     destruct (write_offset _ _ _); simpl; [|intros id r' H; left; exact H]. intros id r'; simpl; apply Q; reflexivity.
   - destruct (nth_error (labels s) l) as [[v|]|] eqn:El; try (intros id r' H; left; exact H).
+    destruct (bind_precheck l (cur s) (s_len (cur_sec s)) (pending s) (refs s)); cbn [negb]; cbv iota; [|intros id r' H; left; exact H].
     unfold bind_rel. simpl.
     set (lbls' := upd (labels s) l (Some (cur s, s_len (cur_sec s)))).
     assert (W : walk_post lbls' (bind_sel l (cur s) (s_len (cur_sec s))) (pending s) (refs s)
